@@ -1,7 +1,7 @@
 (* Core of C01: the kernel's backward recurrence equals the Shapley value of the 1-NN game. *)
 From Coq Require Import List Arith ZArith QArith Lia Bool Setoid Morphisms Permutation Lqa FinFun.
 Import ListNotations.
-Open Scope Q_scope.
+Local Open Scope Q_scope.
 From DS Require Import Util.SumQ Spec.Shapley Proofs.ShapleyAxioms.
 
 Section NN.
